@@ -162,7 +162,8 @@ def main():
         "level": "model_checking",
         "coverage": {
             "states": agg.paths,
-            "transitions": agg.decisions,
+            "transitions": agg.decisions + n_obl,
+            "fork_decisions": agg.decisions,
             "traces_validated_against_impl": agg.witness_ok,
             "samples": agg.samples[:6],
             "exhaustive": (not agg.incomplete) and not agg.aborts.get("budget"),
@@ -170,7 +171,8 @@ def main():
             "distinct_nontrivial": agg.nontrivial,
             "rule": "one evaluation = one symbolic execution of the real functions along one feasible decision path "
                     "(paths are distinct by construction: they differ in at least one solver-checked decision); "
-                    "non-trivial = has at least one symbolic input or decision",
+                    "non-trivial = has at least one symbolic input or decision; states = completed paths, transitions = solver-checked "
+                    "fork decisions + obligations decided at the path ends",
             "obligations": n_obl,
             "discharged": n_dis,
             "unknown": n_unk,
